@@ -148,6 +148,13 @@ def check(case):
             open(os.path.join(base, nm), "w").close()
             os.utime(os.path.join(base, nm), (e, e))
             files[nm] = (e, p)
+            # the same second with a sub-second part: still the same local-time second
+            if i in (1, 5, 6, 0):
+                nm = "f%dfrac" % i
+                open(os.path.join(base, nm), "w").close()
+                frac = {1: 500000000, 5: 999000000, 6: 1000000, 0: 750000000}[i]
+                os.utime(os.path.join(base, nm), ns=(e * 1000000000 + frac, e * 1000000000 + frac))
+                files[nm] = (e, p)
         if len(files) < 4:
             return out
         # `modified` column
